@@ -47,6 +47,17 @@ def parse_report(text):
         msg = re.sub(r"0x[0-9a-f]+", "P", msg)
         kind = "ubsan:" + msg[:60]
     if kind is None:
+        mv = re.search(r"^==\d+== (Conditional jump or move depends on uninitialised value|Use of uninitialised value|Syscall param .* uninitialised|Invalid (?:read|write|free)|Mismatched free|Source and destination overlap)", text, re.M)
+        if mv:
+            kind = "valgrind:" + re.sub(r"[^a-z]+", "-", mv.group(1).lower()).strip("-")[:50]
+            vf = None
+            for line in text.splitlines():
+                fm = re.search(r"(?:at|by) 0x[0-9A-F]+: (\S+) \(([\w.]+\.c):\d+\)", line)
+                if fm and os.path.exists(os.path.join(build.REPO, "lib", fm.group(2))):
+                    vf = fm.group(1)
+                    break
+            return kind, vf, mv.group(0)[:200]
+    if kind is None:
         m3 = re.search(r"WARNING: ThreadSanitizer: ([a-z \-]+)", text)
         if m3:
             kind = "tsan:" + m3.group(1).strip().replace(" ", "-")
@@ -78,14 +89,14 @@ class Batch:
         self.first, self.count = first, count
 
 
-def _run_range(exe, mode, seed, tier, first, count, env, stack_mb, timeout, extra):
+def _run_range(exe, mode, seed, tier, first, count, env, stack_mb, timeout, extra, wrapper=()):
     """Run one driver process over [first, first+count). Returns (records, crashes)."""
     records, crashes = [], []
     cur = first
     end = first + count
     retried_timeout = set()
     while cur < end:
-        cmd = [exe, mode, str(seed), tier, str(cur), str(end - cur)] + list(extra)
+        cmd = list(wrapper) + [exe, mode, str(seed), tier, str(cur), str(end - cur)] + list(extra)
         t0 = time.time()
         try:
             p = subprocess.run(cmd, stdout=subprocess.PIPE, stderr=subprocess.PIPE, env=env,
@@ -126,7 +137,7 @@ def _run_range(exe, mode, seed, tier, first, count, env, stack_mb, timeout, extr
             if victim is not None and victim not in retried_timeout and count > 1:
                 # re-run the suspected case once alone before calling it a hang (watchdog = inconclusive first)
                 retried_timeout.add(victim)
-                r2, c2 = _run_range(exe, mode, seed, tier, victim, 1, env, stack_mb, timeout, extra)
+                r2, c2 = _run_range(exe, mode, seed, tier, victim, 1, env, stack_mb, timeout, extra, wrapper)
                 records += r2
                 for c in c2:
                     crashes.append(c)
@@ -149,7 +160,7 @@ def _run_range(exe, mode, seed, tier, first, count, env, stack_mb, timeout, extr
             # LeakSanitizer runs at exit: attribute by re-running each case alone
             if count > 1:
                 for cid in range(first, end):
-                    _, c1 = _run_range(exe, mode, seed, tier, cid, 1, env, stack_mb, timeout, extra)
+                    _, c1 = _run_range(exe, mode, seed, tier, cid, 1, env, stack_mb, timeout, extra, wrapper)
                     crashes += c1
             else:
                 crashes.append({"case": first, "kind": "leak", "func": func, "rc": rc, "summary": summ,
@@ -190,7 +201,7 @@ class Ctx:
         self.counts[k] = self.counts.get(k, 0) + n
 
     def run(self, flavour, driver, mode, ncases, batch=None, extra=(), stack_mb=64, timeout=900,
-            env_extra=None, gate=None, extra_cflags=(), extra_src=(), extra_ld=(), workers=None):
+            env_extra=None, gate=None, extra_cflags=(), extra_src=(), extra_ld=(), workers=None, wrapper=()):
         """Build driver in flavour and run cases [0,ncases) in parallel batches."""
         gate = gate or (self.prop,)
         try:
@@ -208,7 +219,7 @@ class Ctx:
         ranges = [(i, min(batch, ncases - i)) for i in range(0, ncases, batch)]
         allrec = []
         with ThreadPoolExecutor(workers) as ex:
-            futs = [ex.submit(_run_range, exe, mode, self.seed, self.tier, a, n, env, stack_mb, timeout, list(extra))
+            futs = [ex.submit(_run_range, exe, mode, self.seed, self.tier, a, n, env, stack_mb, timeout, list(extra), list(wrapper))
                     for a, n in ranges]
             for f in futs:
                 recs, crashes = f.result()
